@@ -90,7 +90,7 @@ func (g *tplGen) cond() string {
 func (g *tplGen) expr() string {
 	r := g.r
 	pool := []string{"${a}", "${s}", "a${a}b", "${a + 1}", "lit", "${m.k}", "${s + 'x'}", "${t ? a : s}", "${c3()}", "${c4(a)}", "${s}${s}", "x ${s} y",
-		"${m['k']}", "${strs[0]}", "${ints[-1]}", "${len(xs)}", "${n}", "${fok()}", "${xs}", "${m}", "$ {a}", "$${a}", "${'}'}", "${\"{\"}"}
+		"${m['k']}", "${glob}", "${strs[0]}", "${ints[-1]}", "${len(xs)}", "${n}", "${fok()}", "${xs}", "${m}", "$ {a}", "$${a}", "${'}'}", "${\"{\"}"}
 	if g.inLoop > 0 {
 		pool = append(pool, "${x}", "${i}", "${i}-${x}", "${x}", "${i + 1}")
 	}
@@ -388,8 +388,8 @@ func genRenderCase(r *rng, hostile bool) (*renderCase, map[string]int) {
 	data, fns := g.dataFrame()
 	rc.Data = data.j
 	rc.Fns = fns
-	if r.p(15) {
-		rc.Global = vMap(kv{"glob", vStr("G")}, kv{"a", vInt(99)}).j
+	if r.p(60) {
+		rc.Global = vMap(kv{"glob", vStr("G")}, kv{"a", vInt(99)}, kv{"g3", vInt(3)}).j
 	}
 	if len(cfg) == 0 {
 		rc.Cfg = nil
